@@ -42,6 +42,16 @@ func main() {
 			usage()
 		}
 		os.Exit(runEmit(os.Args[2]))
+	case "dump-tags":
+		prog, err := LoadProgram(nil, false)
+		if err != nil {
+			fmt.Fprintln(os.Stderr, err)
+			os.Exit(2)
+		}
+		r := NewRun("C04", "dump", prog)
+		for _, ts := range r.TagSites(Scope{Include: []string{"pkg/"}}) {
+			fmt.Printf("%-60s %-12s %-50s %s\n", prog.RelPos(ts.Call.Pos()), shortType(ts.Type), ts.Shape, FuncKey(ts.Fn.Obj))
+		}
 	case "mutate":
 		os.Exit(runMutateCLI(os.Args[2:]))
 	case "replay":
